@@ -95,7 +95,6 @@ theorem zip_same_shape (op : String) (hop : TotalOp op) (A B : Sem) (sh : List N
     rw [hA, hB, broadcastShapes_self]
     rw [hA, hB] at hbs
     simp only [hbs]
-    simp [hA, hB]
   · intro i hi
     simp only [hA, hB, bcastIdx_self sh i hi]
     obtain ⟨c, hc⟩ := htot (A.get i) (B.get i)
@@ -107,11 +106,17 @@ theorem foldOp_snoc (op : String) (x : XR) (xs : List XR) (y : XR) :
     foldOp op (x :: (xs ++ [y])) = (foldOp op (x :: xs)).bind (fun a => binop op a y) := by
   simp [foldOp, List.foldlM_append]
 
+/-- `ts` denote, one by one, the values `vals` (in `env`). -/
+inductive AllDenote (env : Env) : List Term → List Sem → Prop
+  | nil : AllDenote env [] []
+  | cons {t : Term} {v : Sem} {ts : List Term} {vs : List Sem} :
+      denote t env = some v → AllDenote env ts vs → AllDenote env (t :: ts) (v :: vs)
+
 /-- Invariant of the left fold in `sequential_reduce`: `acc` denotes the fold of the values seen so
     far. -/
 theorem foldTerms_denote (op : String) (hop : TotalOp op) (env : Env) (sh : List Nat) :
     ∀ (ts : List Term) (vals : List Sem) (acc : Term) (A : Sem) (d0 : Sem) (done : List Sem),
-      List.Forall₂ (fun t v => denote t env = some v) ts vals →
+      AllDenote env ts vals →
       (∀ x ∈ vals, x.shape = sh) →
       denote acc env = some A → A.shape = sh →
       (∀ i ∈ allIdx sh, some (A.get i) = foldOp op ((d0 :: done).map (·.get i))) →
@@ -132,8 +137,9 @@ theorem foldTerms_denote (op : String) (hop : TotalOp op) (env : Env) (sh : List
         intro i hi
         rw [hWg i hi]
         have := foldOp_snoc op (d0.get i) (done.map (·.get i)) (x.get i)
-        simp only [List.map_cons, List.map_append, List.map_nil] at this ⊢
-        rw [this, ← hinv i hi]
+        have hA' := hinv i hi
+        simp only [List.map_cons, List.map_append, List.map_nil] at this hA' ⊢
+        rw [this, ← hA']
         rfl
       obtain ⟨W', h1, h2, h3⟩ := foldTerms_denote op hop env sh ts xs _ W d0 (done ++ [x]) hrest
         (fun y hy => hsh y (by simp [hy])) hacc' hWs hinv'
@@ -145,15 +151,15 @@ def pointEnv (p : List (Name × Nat × Nat)) : Env := p.map fun (n, i, _) => (n,
 
 def toDoms (vars : List (Name × Nat)) : List (Name × Dom) := vars.map fun (n, s) => (n, ⟨DType.bint s, []⟩)
 
+theorem toDoms_cons (n : Name) (s : Nat) (rest : List (Name × Nat)) :
+    toDoms ((n, s) :: rest) = (n, ⟨DType.bint s, []⟩) :: toDoms rest := rfl
+
 theorem assignments_enum : ∀ vars : List (Name × Nat),
     assignments (toDoms vars) = some ((enumPoints vars).map pointEnv)
   | [] => by simp [toDoms, assignments, enumPoints, pointEnv]
   | (n, s) :: rest => by
-    have ih := assignments_enum rest
-    simp only [toDoms, List.map_cons] at ih ⊢
-    simp only [assignments]
-    rw [show List.map (fun x => (x.1, ({ dtype := DType.bint x.2, shape := [] } : Dom))) rest = toDoms rest from rfl]
-    rw [ih]
+    rw [toDoms_cons]
+    simp only [assignments, assignments_enum rest]
     simp only [enumPoints, List.map_flatMap, List.map_map]
     congr 1
 
@@ -172,33 +178,33 @@ theorem denote_pointSubs (arg : Term) (p : List (Name × Nat × Nat)) (env : Env
 
 theorem denoteAll_points (arg : Term) (env : Env) :
     ∀ (ps : List (List (Name × Nat × Nat))) (vals : List Sem),
-      denoteAll arg ((ps.map pointEnv).map (· ++ env)) = some vals →
-      List.Forall₂ (fun t v => denote t env = some v) (ps.map (pointSubs arg)) vals
+      denoteAll arg (ps.map fun p => pointEnv p ++ env) = some vals →
+      AllDenote env (ps.map (pointSubs arg)) vals
   | [], vals, h => by
     simp [denoteAll] at h
     subst h
-    exact List.Forall₂.nil
+    exact AllDenote.nil
   | p :: ps, vals, h => by
     simp only [List.map_cons, denoteAll] at h
     cases h1 : denote arg (pointEnv p ++ env) with
     | none => simp [h1] at h
     | some v =>
-      cases h2 : denoteAll arg ((ps.map pointEnv).map (· ++ env)) with
+      cases h2 : denoteAll arg (ps.map fun p => pointEnv p ++ env) with
       | none => simp [h1, h2] at h
       | some vs =>
         simp only [h1, h2, Option.some.injEq] at h
         subst h
-        exact List.Forall₂.cons (by rw [denote_pointSubs]; exact h1) (denoteAll_points arg env ps vs h2)
+        exact AllDenote.cons (by rw [denote_pointSubs]; exact h1) (denoteAll_points arg env ps vs h2)
 
 /-- **sequential_reduce_sound.**  Whenever the `Reduce` node has a value `v`, the term built by explicit
     enumeration and left fold has a value too, extensionally equal to `v`. -/
 theorem sequential_reduce_sound (op : String) (hop : TotalOp op) (arg : Term) (vars : List (Name × Nat))
     (env : Env) (t : Term) (ht : seqReduce op arg vars = some t) (v : Sem)
     (hv : denote (Term.reduce op arg (toDoms vars)) env = some v)
-    (hshape : ∀ vals, denoteAll arg (((enumPoints vars).map pointEnv).map (· ++ env)) = some vals →
+    (hshape : ∀ vals, denoteAll arg ((enumPoints vars).map fun p => pointEnv p ++ env) = some vals →
       ∀ x ∈ vals, ∀ y ∈ vals, x.shape = y.shape) :
     ∃ w, denote t env = some w ∧ Sem.Eqv w v := by
-  simp only [denote, assignments_enum] at hv
+  simp only [denote, assignments_enum, List.map_map] at hv
   split at hv
   · cases hv
   · cases hv
@@ -229,14 +235,16 @@ theorem sequential_reduce_sound (op : String) (hop : TotalOp op) (arg : Term) (v
           intro i hi
           rw [hWs] at hi
           have := hWg i hi
-          simp only [List.nil_append] at this
-          simp [← this]
+          simp only [List.nil_append, List.map_cons] at this
+          simp only [List.map_cons]
+          rw [← this]
+          rfl
 
 /-- The ops the harness reduces with are total pointwise ops. -/
-theorem totalOp_add : TotalOp "add" := ⟨fun a b => ⟨_, by simp [binop]⟩, by decide, by decide⟩
-theorem totalOp_mul : TotalOp "mul" := ⟨fun a b => ⟨_, by simp [binop]⟩, by decide, by decide⟩
-theorem totalOp_max : TotalOp "max" := ⟨fun a b => ⟨_, by simp [binop]⟩, by decide, by decide⟩
-theorem totalOp_min : TotalOp "min" := ⟨fun a b => ⟨_, by simp [binop]⟩, by decide, by decide⟩
+theorem totalOp_add : TotalOp "add" := ⟨fun a b => ⟨XR.add a b, by simp [binop]⟩, by decide, by decide⟩
+theorem totalOp_mul : TotalOp "mul" := ⟨fun a b => ⟨XR.mul a b, by simp [binop]⟩, by decide, by decide⟩
+theorem totalOp_max : TotalOp "max" := ⟨fun a b => ⟨XR.max a b, by simp [binop]⟩, by decide, by decide⟩
+theorem totalOp_min : TotalOp "min" := ⟨fun a b => ⟨XR.min a b, by simp [binop]⟩, by decide, by decide⟩
 
 /-- An empty product (a variable of size 0) leaves `result = None`: `sequential_reduce` defers. -/
 example : seqReduce "add" (Term.num 1 DType.real) [("i", 0)] = none := by
